@@ -117,6 +117,16 @@ S(id="HT.hpn.native", props=["C19"], spec="native/ht_prime.c", mode="N", link=["
   params={"quick": {"K": 20000}, "thorough": {"K": 200000}}, bound="all requested sizes 0..K (20 000, thorough 200 000)",
   functions=["higher_prime_number"], what="assumed clause of hpn_assumed_c: result is a prime in (n, 2n+3]")
 
+S(id="X.diff.native", props=["C16"], spec="native/cxx_diff.cpp", mode="N", cc="clang++", link_verif=["native/cxx_cside.c"],
+  link=["allocate.c", "hashtab.c", "objstack.c", "vlobject.c", "hashtab.cpp", "objstack.cpp", "vlobject.cpp", "yaep.cpp"], harness="main", timeout=3000,
+  params={"quick": {"INLEN": 3, "LONGLEN": 301}, "thorough": {"INLEN": 4, "LONGLEN": 2001}},
+  bound="both real libraries in one program: three grammars x 100 configurations (lookahead -1..3, one parse, cost, recovery - only together with one parse and no cost flag: F38 -, own allocator) x every input of <= 3 (thorough 4) tokens; 21 rejected / odd descriptions; "
+        "10 callback grammars (9 with one defect); 16 two-object histories x 6 configurations; inputs of 301 (thorough 2001) tokens so that the containers grow",
+  functions=["yaep::yaep", "yaep::~yaep", "yaep::error_code", "yaep::error_message", "yaep::read_grammar", "yaep::parse_grammar", "yaep::set_*", "yaep::parse", "yaep::free_tree",
+             "yaep.c compiled as C++ on hash_table / os / vlo (macro layer of yaep.cpp)"],
+  what="class yaep (libyaep++) and the C functions (libyaep) give the same return codes, error codes and messages, syntax_error callbacks, ambiguity flags, trees (types, names, costs, codes, attributes, sharing) "
+       "and the same parse_free / termcb calls in free_tree, with no block left")
+
 # ---------------- C15 / C14 / C17: yaep_parse ----------------
 PARSE_REPL = ["verif_error_exit/err_c", "tok_init/tok_init_c", "read_toks/read_toks_c", "yaep_parse_init/parse_init_c", "build_pl/build_pl_c",
               "make_parse/make_parse_c", "yaep_parse_fin/parse_fin_c", "tok_fin/tok_fin_c"]
